@@ -132,17 +132,26 @@ class _AioServer:
 
 
 def raw_http(port, request_bytes, timeout=30):
-    """Send raw bytes, return (status, headers, body) parsed leniently."""
+    """Send raw bytes, return (status, headers, body) parsed leniently.  `port`: TCP port on the
+    loopback interface, or the path of a unix-domain socket."""
     import socket
 
-    s = socket.create_connection(("127.0.0.1", port), timeout=timeout)
+    if isinstance(port, str):
+        s = socket.socket(socket.AF_UNIX, socket.SOCK_STREAM)
+        s.settimeout(timeout)
+        s.connect(port)
+    else:
+        s = socket.create_connection(("127.0.0.1", port), timeout=timeout)
     try:
-        s.sendall(request_bytes)
+        try:
+            s.sendall(request_bytes)
+        except (BrokenPipeError, ConnectionResetError):
+            pass  # answered before the body was read
         buf = b""
         while True:
             try:
                 chunk = s.recv(65536)
-            except socket.timeout:
+            except (socket.timeout, ConnectionResetError):
                 break
             if not chunk:
                 break
